@@ -207,6 +207,17 @@ def run(tier: str, seed: int) -> CheckResult:
     # client's backoff; a failed PATCH needs a later event to be made up for - C12's subject): the objects found by the listing that finally succeeds are resumed all the same
     faulty += [build(h, 8.0, sc, late_b=False, faults=['conn'], fault_all=True, fault_methods=['get'], max_faults=1, delays=False, early_user=False, time_dev=False)
                for h in ([], [('relist',)], [('status', 'a', 7)]) for sc in script_sets[:2]]
+    # the operator also serves admission webhooks (with the very memories its watchers use): the API server asks it about an UPDATE of the
+    # object before the new process has listed anything - the object is still one that "already exists" when the process finds it in its listing
+    for tail in ([], [('relist',)], [('spec', 'a', 2)], [('status', 'a', 7), ('reconnect',)]):
+        for sc in script_sets[:2]:
+            b = build(tail, 8.0, sc, late_b=False, delays=False, early_user=False, time_dev=False)
+            params = dict(b.params)
+            params['user'] = [(t, 'restartadmit', 'a') if (t, a) == (6.0, 'restart') else (t, a, *rest) for t, a, *rest in params['user']]
+            hist.append(C14Scenario(**params))
+            params2 = dict(b.params)     # ... or right after it has (nothing changes then)
+            params2['user'] = sorted(params2['user'] + [(6.5, 'admit', 'a')], key=lambda u: u[0])
+            hist.append(C14Scenario(**params2))
     if tier == 'quick':
         groups = [('histories', hist, 0, 60.0), ('timing+kills', timing, 1, 40.0), ('a-rejected-write', faulty, 1, 30.0)]
     else:
